@@ -7,6 +7,8 @@ CONSTANTS
   UKinds = {"user", "result"}
   Modes = {"hash", "dup"}
   Decos = {0}
+  Shapes = "any"
+  Ops = "all"
   MaxSteps = 2
   Script = "paired"
 INVARIANTS HashIffEqual PermutationInvariant CopyHashEqual Stable Terminates CopyEqual CopyDisjoint CopyIndependent DupTerminates
